@@ -252,7 +252,19 @@ def cli_check(ctx, stream, scratch, tag, spec, real_subprocess=False):
     with open(path, 'wb') as f:
         f.write(stream)
     ctx.count('cli_checks')
-    for args in (['decode', '-m', path], ['decode', '-m', '--continue-on-error', path], ['info', '-m', path]):
+    out = path + '.out'
+    script = path + '.pbk'
+    with open(script, 'w') as f:
+        f.write('print(${%length}, ${%n_subsets})\n')
+    more = [['decode', path], ['decode', '-j', '-m', path], ['decode', '-a', '-m', '--continue-on-error', path], ['info', path],
+            ['info', '-m', '--continue-on-error', path], ['info', '-c', path], ['split', path], ['split', '--continue-on-error', path],
+            ['subset', '0', path, out], ['query', '%length', path], ['query', '001001', path], ['query', '-j', '/001001', path],
+            ['script', 'print(${%length})', path], ['script', 'print(${001001})', path], ['script', '-f', script, path],
+            ['decode', '-m', '--filter', '${%n_subsets} > 0', path], ['decode', '-m', '--compiled-template-cache-max', '5', path]]
+    ctx.rng.shuffle(more)
+    for args in [['decode', '-m', path], ['decode', '-m', '--continue-on-error', path], ['info', '-m', path]] + more[:6]:
+        ctx.count('cli_commands_on_damaged_files')
+        ctx.add('cli_commands', ' '.join(a for a in args if not a.startswith('/') and a != path and a != out and a != script))
         with time_limit(20):
             so, se, exc, code = run_cli(args)
         if isinstance(exc, CaseTimeout):
@@ -273,7 +285,11 @@ def cli_check(ctx, stream, scratch, tag, spec, real_subprocess=False):
         if p is not None and b'Traceback' in p.stderr:
             ctx.violate('cli-traceback/subprocess', 'python -m pybufrkit decode -m prints a traceback: %s'
                         % p.stderr.decode('latin-1')[-300:], spec)
-    os.remove(path)
+    for pth in [path, out, script] + [path + '.%d' % i for i in range(12)]:
+        try:
+            os.remove(pth)
+        except OSError:
+            pass
 
 
 def run(ctx):
